@@ -14,6 +14,10 @@ TOKENS = ["BEGIN:VEVENT", "END:VEVENT", "\r\nX:1", "\nEND:VCALENDAR\nBEGIN:VCALE
 PROPS = [("SUMMARY", "text"), ("URL", "uri"), ("ATTENDEE", "cal-address"), ("CATEGORIES", "cat"), ("X-THING", "text")]
 
 
+# Python-level substrings of the listed finding C07-F2 / C05-F1 (double unescaping, %XX placeholders): values containing them are known to change
+_TEXT_KNOWN = ["\\\\", "\\n", "\\N", "\\;", "\\,", "%2C", "%3A", "%3B", "%5C", "%2c", "%3a", "%3b", "%5c"]
+
+
 def structure(comp):
     """names only: (component name, sorted [(property name, count, [param names per value])], [sub structures])"""
     props = []
@@ -57,6 +61,15 @@ def check(prop, kind, value, pvalue):
         return f"the whole parse fails: {type(e).__name__}: {str(e)[:80]}"
     got = structure(back)
     if got == want:
+        # "value text that decodes to the same value": TEXT values outside the listed classes of C07-F2 come back exactly
+        if kind == "text" and isinstance(value, str) and not any(x in value for x in _TEXT_KNOWN):
+            try:
+                bv = back.subcomponents[0].get(prop)
+                bv = bv[0] if isinstance(bv, list) else bv
+                if bv is not None and str(bv) != value.replace("\r\n", "\n"):
+                    return f"the value read back is {str(bv)!r}, sent {value!r}"
+            except Exception as e:  # noqa
+                return f"reading the value back raises {type(e).__name__}: {e}"
         return None
     # the offending property alone may be rejected (recorded in the component's errors)
     ev_want = want[2][0]
